@@ -6,6 +6,9 @@ import (
 	"strings"
 	"unicode/utf8"
 
+	m2 "github.com/goark/go-cvss/v2/metric"
+	m3 "github.com/goark/go-cvss/v3/metric"
+
 	"pgregory.net/rapid"
 	"verif/harness/gen"
 	"verif/harness/spec"
@@ -23,6 +26,9 @@ type strCase struct {
 	// immediately before Input — typically the valid vector Input was derived from. What a
 	// decoder accepts must not depend on what was decoded before.
 	Prime string `json:"decoded_before,omitempty"`
+	// PreQuery: the decoder comes from the constructor and is queried completely (every
+	// observer) before its Decode; what it then accepts must be the same.
+	PreQuery bool `json:"queried_before_decode,omitempty"`
 }
 
 func newStrCase(ver int, level spec.Level, nilRecv bool, s string) strCase {
@@ -30,7 +36,7 @@ func newStrCase(ver int, level spec.Level, nilRecv bool, s string) strCase {
 }
 
 func (c strCase) key() string {
-	return fmt.Sprintf("%d|%d|%v|%s|%s", c.Ver, c.Level, c.NilRecv, c.Input, c.Prime)
+	return fmt.Sprintf("%d|%d|%v|%v|%s|%s", c.Ver, c.Level, c.NilRecv, c.PreQuery, c.Input, c.Prime)
 }
 
 func (c strCase) valid() bool {
@@ -46,12 +52,55 @@ func decodeAny(c strCase) (isNil bool, err error) {
 			decode3(spec.Level(c.Level), c.Prime, false)
 		}
 	}
+	if c.PreQuery && !c.NilRecv {
+		return decodePreQueried(c)
+	}
 	if c.Ver == 2 {
 		o, e := decode2(spec.Level(c.Level), string(c.Input), c.NilRecv)
 		return o.isNil(), e
 	}
 	o, e := decode3(spec.Level(c.Level), string(c.Input), c.NilRecv)
 	return o.isNil(), e
+}
+
+// decodePreQueried: constructor, every observer once, then the single Decode.
+func decodePreQueried(c strCase) (bool, error) {
+	lv := spec.Level(c.Level)
+	in := string(c.Input)
+	if c.Ver == 3 {
+		switch lv {
+		case spec.Base:
+			r := m3.NewBase()
+			snapViews(views3(r, nil, nil, lv))
+			o, err := r.Decode(in)
+			return o == nil, err
+		case spec.Temporal:
+			r := m3.NewTemporal()
+			snapViews(views3(nil, r, nil, lv))
+			o, err := r.Decode(in)
+			return o == nil, err
+		}
+		r := m3.NewEnvironmental()
+		snapViews(views3(nil, nil, r, lv))
+		o, err := r.Decode(in)
+		return o == nil, err
+	}
+	switch lv {
+	case spec.Base:
+		r := m2.NewBase()
+		snapViews(views2(r, nil, nil, lv))
+		o, err := r.Decode(in)
+		return o == nil, err
+	case spec.Temporal:
+		r := m2.NewTemporal()
+		snapViews(views2(nil, r, nil, lv))
+		o, err := r.Decode(in)
+		return o == nil, err
+	}
+	r := m2.NewEnvironmental()
+	snapViews(views2(nil, nil, r, lv))
+	o, err := r.Decode(in)
+	return o == nil, err
 }
 
 func refAccept(c strCase) bool {
@@ -85,7 +134,12 @@ func drawStringCase(rt *rapid.T, ver int, maxAny int) (strCase, []string) {
 		src := gen.Level().Draw(rt, "srclevel")
 		dec := gen.Level().Draw(rt, "decoder")
 		v := gen.Valid(ver, src).Draw(rt, "valid")
-		return newStrCase(ver, dec, nilRecv, v.String()), []string{"gen:valid"}
+		cs := newStrCase(ver, dec, nilRecv, v.String())
+		if !nilRecv && rapid.IntRange(0, 2).Draw(rt, "prequery") == 0 {
+			cs.PreQuery = true
+			return cs, []string{"gen:valid", "decoder-queried-before-decode"}
+		}
+		return cs, []string{"gen:valid"}
 	case k <= 6:
 		dec := gen.Level().Draw(rt, "decoder")
 		s, labels, source := gen.MutatedFrom(rt, ver)
@@ -170,6 +224,17 @@ func quoteShort(b []byte) string {
 func forEachShape(ver int, f func(i int, cs strCase, label string)) {
 	reps := representatives(ver)
 	i := 0
+	// token moves and value runs for the other representatives too (all group shapes)
+	for _, v := range []spec.Vec{reps[1], reps[2], reps[3], reps[5]} {
+		for lv := spec.Base; lv <= spec.Environmental; lv++ {
+			emit := func(s, label string) {
+				i++
+				f(i, newStrCase(ver, lv, i%2 == 0, s), label)
+			}
+			gen.Moves(v, emit)
+			gen.ValueRuns(ver, v, emit)
+		}
+	}
 	for _, v := range []spec.Vec{reps[0], reps[4]} {
 		for lv := spec.Base; lv <= spec.Environmental; lv++ {
 			gen.Shapes(ver, v, lv, thorough(), func(s, label string) {
